@@ -3,6 +3,7 @@
 #include "vp_harness.h"
 #include "vp_dom.h"
 #include "vp_object.h"
+#include "QXmppIq.h"
 extern "C" {
 void vp_c08_model_limit(bool ok);
 bool vp_c08_false();
@@ -18,20 +19,31 @@ enum { TY_GET, TY_SET, TY_RESULT, TY_ERROR, TY_EMPTY, TY_GARBAGE, NTY };
 enum { TAG_QUERY, TAG_VCARD, TAG_TIME, TAG_PING, NTAG };
 enum { NS_VCARD, NS_ROSTER, NS_DISCO_INFO, NS_DISCO_ITEMS, NS_VERSION, NS_TIME, NS_PING, NS_CLIENT, NS_NONE, NNS };
 
-// ------------------------------------------------------------------------------------------------ wire log
-// Everything the code under check hands to the stream (QXmppClient::reply / sendPacket / send, or the stream's packet layer in
-// the client group) is serialised by its REAL toXml into the writer tree model and kept here.
+// ------------------------------------------------------------------------------------------------ log of what is sent
+// Every stanza the code under check hands to the stream is recorded, either as the wire form (the stanza's REAL toXml run into the
+// writer tree model: group "client") or by its envelope fields read through the real getters type()/id()/to() (groups "iqh", "mgr":
+// the payload serialisers of the managers' IQ classes are C01's subject).
 #define C08_LOGCAP 3
+struct Sent { bool isTree; QDomElement tree; int type; QString id, to; };
 static int g_nsent;
-static QDomElement g_sent[C08_LOGCAP];
-static void wireLog(const QXmppNonza &p)
+static Sent g_sent[C08_LOGCAP];
+static void logTree(const QDomElement &root)
 {
-    VpWriter w;
-    p.toXml(w.writer());
     vp_c08_model_limit(g_nsent < C08_LOGCAP);
-    g_sent[g_nsent] = w.root();
+    g_sent[g_nsent].isTree = true; g_sent[g_nsent].tree = root;
     g_nsent++;
 }
+static void logIq(const QXmppIq &iq)
+{
+    vp_c08_model_limit(g_nsent < C08_LOGCAP);
+    Sent &r = g_sent[g_nsent];
+    r.isTree = false; r.type = int(iq.type()); r.id = iq.id(); r.to = iq.to();
+    g_nsent++;
+}
+static bool sentIsIq(int i) { return !g_sent[i].isTree || g_sent[i].tree.tagName() == L("iq"); }
+static bool sentTypeIs(int i, QXmppIq::Type t, const QString &keyword) { return g_sent[i].isTree ? g_sent[i].tree.attribute(L("type")) == keyword : g_sent[i].type == int(t); }
+static QString sentId(int i) { return g_sent[i].isTree ? g_sent[i].tree.attribute(L("id")) : g_sent[i].id; }
+static QString sentTo(int i) { return g_sent[i].isTree ? g_sent[i].tree.attribute(L("to")) : g_sent[i].to; }
 
 // ------------------------------------------------------------------------------------------------ symbolic IQ
 static QDomElement el(const QString &tag, const QString &ns) { QDomElement e; vp_dom_new(&e, &tag, &ns); return e; }
@@ -112,25 +124,28 @@ static void symIq(SymIq &q, unsigned ty, unsigned shape, bool hasFrom, const QSt
 // nondeterministic selector; the solver decides all branches in one query.
 #define C08_SH8(f, t) case t * 8 + 0: f<t, 0>(); break; case t * 8 + 1: f<t, 1>(); break; case t * 8 + 2: f<t, 2>(); break; case t * 8 + 3: f<t, 3>(); break; \
                       case t * 8 + 4: f<t, 4>(); break; case t * 8 + 5: f<t, 5>(); break; case t * 8 + 6: f<t, 6>(); break; case t * 8 + 7: f<t, 7>(); break;
+// a harness that uses fewer than 8 shapes lets the surplus cases return at once (K >= its count)
 #define DISPATCH_REQ(f) do { unsigned c_ = vp_u8(); vp_assume(c_ < 16); switch (c_) { C08_SH8(f, 0) C08_SH8(f, 1) default: break; } } while (0)
 #define DISPATCH_RESP(f) do { unsigned c_ = vp_u8(); vp_assume(c_ >= 16 && c_ < 48); switch (c_) { C08_SH8(f, 2) C08_SH8(f, 3) C08_SH8(f, 4) C08_SH8(f, 5) default: break; } } while (0)
 
 // ------------------------------------------------------------------------------------------------ oracle
+static QString g_ownAccount;   // bare JID of the own account where the harness configures one (else null: only to == from counts)
 // reply i is <iq type='result'|'error' id=ID to=FROM/>
+static bool replyIsError(int i) { return sentTypeIs(i, QXmppIq::Error, L("error")); }
 static void checkReply(int i, const SymIq &q)
 {
-    const QDomElement &a = g_sent[i];
-    vp_assert(a.tagName() == L("iq"), "C08 the reply is an iq stanza");
-    const QString t = a.attribute(L("type"));
-    vp_assert(t == L("result") || t == L("error"), "C08 the reply to a get/set has type result or error");
-    vp_assert(a.attribute(L("id")) == q.id, "C08 the reply carries the id of the request");
-    vp_assert(a.attribute(L("to")) == q.from, "C08 the reply is addressed to the sender of the request");
+    vp_assert(sentIsIq(i), "C08 the reply is an iq stanza");
+    vp_assert(replyIsError(i) || sentTypeIs(i, QXmppIq::Result, L("result")), "C08 the reply to a get/set has type result or error");
+    vp_assert(sentId(i) == q.id, "C08 the reply carries the id of the request");
+    // an iq without 'to' is addressed to the sender's own account (RFC 6120 8.1.1.1 / 10.3.3): that reaches a requester whose
+    // 'from' was absent/empty (the server acting for the account) or the own bare JID
+    const QString to = sentTo(i);
+    vp_assert(to == q.from || (to.isEmpty() && q.from == g_ownAccount), "C08 the reply is addressed to the sender of the request");
 }
-static bool replyIsError(int i) { return g_sent[i].attribute(L("type")) == L("error"); }
-// first child of <error/> in reply i is <cond xmlns='urn:ietf:params:xml:ns:xmpp-stanzas'/>
+// wire form only: first child of <error/> in reply i is <cond xmlns='urn:ietf:params:xml:ns:xmpp-stanzas'/>
 static bool replyHasCondition(int i, const QString &c1, const QString &c2)
 {
-    const QDomElement &a = g_sent[i];
+    const QDomElement &a = g_sent[i].tree;
     QDomElement e = a.firstChildElement(L("error"));
     if (e.isNull()) return false;
     QDomElement c = e.firstChildElement();
